@@ -261,6 +261,66 @@ func (r *Runner) replaySched(l *Line) lineResult {
 					}
 					res.extra["schedules_big_history"]++
 				}
+				// histories with thousands of pending leaves and blocks of more than a thousand targets
+				// (deletion targets from a pointer forest following along; the expectation is the slot
+				// bookkeeping of the history, as everywhere)
+				rng := func(a, b int) []int {
+					var o []int
+					for x := a; x < b; x++ {
+						o = append(o, x)
+					}
+					return o
+				}
+				for hi, hist := range [][]schedBlock{
+					{{D: []int{}, K: 2047}, {D: []int{2046}, K: 2}, {D: append(rng(0, 1500), 2047), K: 0}},
+					{{D: []int{}, K: 3001}, {D: append(rng(0, 1200), 3000), K: 0}, {D: []int{}, K: 2}, {D: []int{3001}, K: 0}},
+					{{D: []int{}, K: 2500}, {D: rng(1000, 2200), K: 3}, {D: append(rng(0, 1000), 2501), K: 5}, {D: rng(2300, 2400), K: 0}},
+				} {
+					pp := utreexo.NewAccumulator()
+					csx := utreexo.NewCachingScheduleTracker(len(hist))
+					total, ok := 0, true
+					for _, b := range hist {
+						hs := make([]Hash, len(b.D))
+						for i, d := range b.D {
+							hs[i] = leafHash("sched-big", uint64(d))
+						}
+						var tg []uint64
+						if len(hs) > 0 {
+							pr, err := pp.Prove(hs)
+							if err != nil {
+								ok = false
+								break
+							}
+							tg = pr.Targets
+							if pp.Modify(nil, hs, pr) != nil {
+								ok = false
+								break
+							}
+						}
+						lv := make([]utreexo.Leaf, b.K)
+						for i := range lv {
+							lv[i] = utreexo.Leaf{Hash: leafHash("sched-big", uint64(total+i))}
+						}
+						if pp.Modify(lv, nil, utreexo.Proof{}) != nil {
+							ok = false
+							break
+						}
+						total += b.K
+						csx.AddBlockSummary(append([]uint64{}, tg...), uint16(b.K))
+					}
+					if !ok {
+						continue
+					}
+					for _, m := range []int{total + 1, 40} {
+						out := csx.GenerateCachingSchedule(m)
+						res.calls++
+						ev := &schedEvent{Ev: "sched", Blocks: nil, MaxMem: m, Sched: nil}
+						if cat, what := schedCheck(hist, m, out); cat != "" {
+							fail(cat+".bighistory", fmt.Sprintf("%s (scripted history %d with thousands of pending leaves)", what, hi), ev)
+						}
+						res.extra["schedules_big_history"]++
+					}
+				}
 			})
 		}
 	})
